@@ -111,7 +111,8 @@ def oracle_a(data, offsets):
 # -- oracle B ------------------------------------------------------------------------------------
 
 class World:
-    def __init__(self, warm, sid):
+    def __init__(self, warm, sid, simple=False):
+        self.simple = simple
         self.loop = VLoop().install()
         self.seam = RandomSeam(Choice())
         self.seam.__enter__()
@@ -121,9 +122,22 @@ class World:
         self.cl = ClientRec("L", self.log, self.loop)
         self.sl = ServerRec("S", self.log, self.loop)
         self.prot.discovery.watch_all_services(self.cl)
-        self.inst = sd.ServiceInstance(cfg_.Service(sid, 1, 1, 0, eventgroups=frozenset({5})), self.sl,
-                                       self.prot.announcer, self.prot.timings)
-        self.prot.announcer.announce_service(self.inst)
+        if simple:
+            # the library's own SimpleService is the server-side listener (announced through this endpoint)
+            class S(svc.SimpleService):
+                service_id = sid
+                version_major = 1
+                version_minor = 0
+
+            self.service = S(instance_id=1)
+            self.service.transport = FakeTransport(self.loop, sockname=("192.0.2.1", 30501))
+            self.service.register_eventgroup(svc.SimpleEventgroup(self.service, id=5))
+            self.service.start_announce(self.prot.announcer)
+            self.inst = self.prot.announcer.announcing_services[0]
+        else:
+            self.inst = sd.ServiceInstance(cfg_.Service(sid, 1, 1, 0, eventgroups=frozenset({5})), self.sl,
+                                           self.prot.announcer, self.prot.timings)
+            self.prot.announcer.announce_service(self.inst)
         self.prot.start()
         self.loop.run_until(0.25)
         if warm:
@@ -147,9 +161,13 @@ class World:
         return exc
 
     def observe(self):
-        key = canon.state_key(self.loop, [self.prot, self.inst, self.cl, self.sl])
-        cbs = tuple((x[2], x[3], repr(x[4]), x[5]) for x in self.log)
+        roots = [self.prot, self.inst, self.cl, self.sl]
         sent = tuple((t, d, a) for t, it, d, a in self.prot.transport.sent)
+        if self.simple:
+            roots.append(self.service)
+            sent += tuple((t, d, a) for t, it, d, a in self.service.transport.sent)
+        key = canon.state_key(self.loop, roots)
+        cbs = tuple((x[2], x[3], repr(x[4]), x[5]) for x in self.log)
         return key, cbs, sent
 
     def close(self):
@@ -195,8 +213,8 @@ def twin_of(data):
 _TWIN_CACHE = {}
 
 
-def world_result(warm, sid, data, multicast):
-    w = World(warm, sid)
+def world_result(warm, sid, data, multicast, simple=False):
+    w = World(warm, sid, simple)
     try:
         if data:
             exc = w.deliver(data, multicast)
@@ -211,13 +229,17 @@ def world_result(warm, sid, data, multicast):
         w.close()
 
 
-def oracle_b(data, sid):
+def oracle_b(data, sid, with_simple=False):
     out = []
     tw = twin_of(data)
-    for warm in (False, True):
-        for mc in (False, True):
-            exc, obs, loopexc, swallowed = world_result(warm, sid, data, mc)
-            where = f"{'warm' if warm else 'fresh'} discovery endpoint, {'multicast' if mc else 'unicast'}"
+    combos = [(warm, mc, False) for warm in (False, True) for mc in (False, True)]
+    if with_simple:
+        combos.append((True, False, True))
+    for warm, mc, simple in combos:
+        if True:
+            exc, obs, loopexc, swallowed = world_result(warm, sid, data, mc, simple)
+            where = f"{'warm' if warm else 'fresh'} discovery endpoint{' with a SimpleService listener' if simple else ''}, " \
+                    f"{'multicast' if mc else 'unicast'}"
             if exc:
                 out.append(("receive-path", f"raises-{exc}", f"{where}: {exc} escaped datagram_received"))
                 continue
@@ -225,9 +247,9 @@ def oracle_b(data, sid):
                 out.append(("receive-path", f"loop-exception-{loopexc[0][2]}", f"{where}: {loopexc[:1]}"))
             if swallowed:
                 out.append(("receive-path", f"swallowed-{swallowed[0][1]}", f"{where}: {swallowed[:1]}"))
-            k = (warm, mc, tw)
+            k = (warm, mc, simple, tw)
             if k not in _TWIN_CACHE:
-                _TWIN_CACHE[k] = world_result(warm, sid, tw, mc)[1]
+                _TWIN_CACHE[k] = world_result(warm, sid, tw, mc, simple)[1]
             if obs != _TWIN_CACHE[k]:
                 t = _TWIN_CACHE[k]
                 what = "state" if obs[0] != t[0] else ("callbacks" if obs[1] != t[1] else "transmissions")
@@ -274,6 +296,10 @@ def part(args):
     if kind == "short":
         gen = ((f"short:{d.hex()}", d) for d in list(corpus.short_strings(2))[lo:hi])
         offs = (0, 0, 0)
+    elif kind == "seed2":
+        import itertools as _it
+        gen = _it.islice(corpus.mutations2(seed_bytes), lo, hi)
+        offs = offsets_of(seed_bytes)
     else:
         gen = list(corpus.mutations(seed_bytes))[lo:hi]
         offs = offsets_of(seed_bytes)
@@ -288,7 +314,7 @@ def part(args):
         for clause, disc, detail, which in va:
             viols.append((clause, disc, f"{which}: {detail}", dict(seed=name, mutation=mname, data=data, oracle="A")))
         if live:
-            for clause, disc, detail in oracle_b(data, sid) + service_endpoint(data):
+            for clause, disc, detail in oracle_b(data, sid, name in ("sd-subscribe-cfg", "sd-stop-subscribe")) + service_endpoint(data):
                 viols.append((clause, disc, detail, dict(seed=name, mutation=mname, data=data, oracle="B")))
     return n, viols[:200], classes, len(viols)
 
@@ -306,6 +332,14 @@ def check(ctx):
         # all strings of length 0..2: decoders on all of them, live endpoints on the 257 shortest
         jobs.append(("short", "short", b"", lo, lo + 8192, sid, lo == 0 and False))
     jobs.append(("short", "short", b"", 0, 257, sid, True))
+    if ctx.thorough:
+        # structural 2-mutations: decoders for every seed, live endpoints for the seed that carries an endpoint
+        # and a configuration option
+        for name, data in corpus.seeds(ctx.seed):
+            st = len([p for p in corpus.structure(data)[0] if p < len(data)])
+            total = (st * (st - 1) // 2) * 15 * 15
+            for lo in range(0, total, 4000):
+                jobs.append(("seed2", name, data, lo, lo + 4000, sid, name == "sd-subscribe-cfg"))
     out = core.pmap(part, jobs, 1)
     viols = []
     classes = {}
